@@ -5,7 +5,7 @@ CONSTANTS
   CallReqs = {"r1"}
   CancelOf <- NoCancelOf
   DupOf <- NoDupOf
-  Closers = {"c1"}
+  Closers = {"c1","c2"}
   Waiters = {"w1"}
   WriteOutcomes = {"ok","broken"}
   EnvEOF = TRUE
